@@ -1,5 +1,6 @@
 import Rare.Base.Proto
 import Rare.Model.C12
+import Rare.Model.C12Go
 import Rare.Spec.C12Grammar
 import Rare.Model.C16
 namespace Rare.Drv.C12
@@ -37,6 +38,28 @@ def runKeep : Instance → List Bytes → Except String (List (Option (View × L
       match runKeep s ls with
       | .error e => .error e
       | .ok (rs, s') => .ok ((r.map fun v => (v, s.pool.read v)) :: rs, s')
+
+
+def getManyD : Pool → List Nat → Except String (List View × Pool)
+  | p, [] => .ok ([], p)
+  | p, n :: ns =>
+    match p.get n with
+    | .error e => .error e
+    | .ok (v, p) =>
+      match getManyD p ns with
+      | .error e => .error e
+      | .ok (vs, p) => .ok (v :: vs, p)
+
+/-- fill view `k` (0-based) with `k+1` right after it was handed out; at the end re-read all -/
+def fillAll : Pool → List View → Nat → Except String Pool
+  | p, [], _ => .ok p
+  | p, v :: vs, k =>
+    match (List.range v.len).foldlM (fun (p : Pool) i => p.write v i ((k : Int) + 1)) p with
+    | .error e => .error e
+    | .ok p => fillAll p vs (k + 1)
+
+def sliceOf (line : Bytes) (a b : Int) : Option Bytes :=
+  if 0 ≤ a ∧ a ≤ b ∧ b ≤ (line.length : Int) then some ((line.drop a.toNat).take (b.toNat - a.toNat)) else none
 
 def cycle (l : List Bytes) (rep : Nat) : List Bytes := (List.replicate rep l).flatten
 
@@ -96,6 +119,59 @@ def handle : List String → String
           if table != d.groupNames.map (fun e => (e.1, (e.2 : Int))) then "c16-c12-disagree"
           else s!"ok n={renderNames (table.map fun e => (e.1, e.2.toNat))} count={d.groupCount}"
     | none => "bad-args"
+  -- what Go runs behind strings.Index / bytes.Index / IndexByte, and case.go's helpers, directly
+  | ["index", hay, needle] =>
+    match Hex.dec hay, Hex.dec needle with
+    | some hay, some needle =>
+      let si := goIndex hay needle
+      if si != stringsIndex hay needle then "model-contract-disagree"
+      else
+        let ib : Int := match needle with | [] => -1 | c :: _ => goIndexByte hay c
+        let low := lowerASCII needle
+        s!"ok si={si} ib={ib} ic={indexIgnoreCase hay low} icraw={indexIgnoreCase hay needle} low={Hex.enc low} lowhay={Hex.enc (lowerASCII hay)}"
+    | _, _ => "bad-args"
+  -- slicepool.IntPool directly: the views (start:len) of a sequence of Get calls, whether every slice
+  -- still holds what was written into it right after its Get, and the panic
+  | ["pool", size, ns] =>
+    match size.toNat?, (if ns == "." then some [] else (ns.splitOn ",").mapM String.toNat?) with
+    | some size, some ns =>
+      match getManyD (Pool.new size) ns with
+      | .error _ => "panic"
+      | .ok (vs, p) =>
+        match fillAll p vs 0 with
+        | .error _ => "panic"
+        | .ok p =>
+          let intact := (vs.zipIdx 0).all fun vk => p.read vk.1 == List.replicate vk.1.len ((vk.2 : Int) + 1)
+          let views := ",".intercalate (vs.map fun v => s!"{v.start}:{v.len}")
+          s!"ok v={if vs.isEmpty then "." else views} intact={if intact then 1 else 0}"
+    | _, _ => "bad-args"
+  -- Compile / MustCompile: MustCompile panics exactly on the patterns CompileEx rejects
+  | ["must", pat] =>
+    match Hex.dec pat with
+    | some pat => match compileEx pat false with | .ok _ => "ok" | .error _ => "panic"
+    | none => "bad-args"
+  -- named-field view: the text of {0} and of every named capture, cut out of the line by the caller
+  | ["field", ic, pat, line] =>
+    match Hex.dec pat, Hex.dec line with
+    | some pat, some line =>
+      match compileEx pat (ic == "1") with
+      | .error e => s!"err {errName e}"
+      | .ok d =>
+        match matchAll d [line] with
+        | .ok [none] => "ok nomatch"
+        | .ok [some r] =>
+          let cut (i : Nat) : Option Bytes :=
+            match r[2 * i]?, r[2 * i + 1]? with
+            | some a, some b => sliceOf line a b
+            | _, _ => none
+          let fields := d.groupNames.map fun e => (cut e.2).map fun t => s!"{Hex.enc e.1}={Hex.enc t}"
+          match cut 0, fields.mapM id with
+          | some whole, some fs =>
+            let fs := fs.mergeSort (fun a b => decide (a ≤ b))
+            s!"ok len={r.length} 0={Hex.enc whole} f={if fs.isEmpty then "." else ",".intercalate fs}"
+          | _, _ => "panic"
+        | _ => "panic"
+    | _, _ => "bad-args"
   | _ => "bad-op"
 
 end Rare.Drv.C12
